@@ -180,6 +180,8 @@ const CONTEXTS: &[Ctxt] = &[
     Ctxt { name: "len subject", tmpl: "print(v->len())\n", accept: &[K::Str] },
     Ctxt { name: "slot of a literal nested in a slot, after a sibling nested literal", tmpl: "print($\"${$\"${\"a\"}\"}|${$\"${v}\"}\")\n", accept: &[K::Str] },
     Ctxt { name: "slot of a literal nested in a slot, evaluated twice", tmpl: "fn w(p) { return p; }\nq := $\"${w($\"${\"a\"}\")}\"\nprint($\"${w($\"${v}\")}\")\n", accept: &[K::Str] },
+    Ctxt { name: "computed pattern name read from the source itself", tmpl: "w := {\"n\": v, \"s\": 5}\n{w.n: p} := w\nprint(p)\n", accept: &[K::Str] },
+    Ctxt { name: "computed literal name read from a sibling object", tmpl: "w := {\"n\": v}\nprint({w.n: 1, \"z\": 2})\n", accept: &[K::Str] },
     Ctxt { name: "slot of an interpolated property name", tmpl: "print({$\"k${v}\": 1})\n", accept: &[K::Str] },
     Ctxt { name: "slot of an interpolated key read", tmpl: "w := {\"ks\": 1, \"k\": 2}\nprint(w[$\"k${v}\"])\n", accept: &[K::Str] },
     Ctxt { name: "slot of an interpolated key written", tmpl: "w := {}\nw[$\"k${v}\"] = 1\nprint(w)\n", accept: &[K::Str] },
@@ -235,6 +237,19 @@ impl Check for C16 {
                     // literal operands (no variables in between)
                     let src2 = format!("{}print(\"pre\")\nprint({} {} {})\n", PRELUDE, vx(l), op, vx(r));
                     cases.push(Case::new(src2, T_BIN, format!("binop {} {} {}", oi, l, r)));
+                }
+            }
+        }
+        // the same cells with the operation standing as a condition
+        for (oi, op) in BINOPS.iter().enumerate() {
+            if !["==", "!=", "<", "<=", ">", ">=", "&&", "||", "===", "!=="].contains(op) {
+                continue;
+            }
+            for l in 0..nv {
+                for r in 0..nv {
+                    for form in ["if a @ b { print(\"t\"); } else { print(\"f\"); }\n", "n := 0\nwhile a @ b { n += 1; if n > 0 { break; }; }\nprint(n)\n", "if false { } else if a @ b { print(\"t\"); } else { print(\"f\"); }\n"] {
+                        cases.push(Case::new(format!("{}a := {}\nb := {}\nprint(\"pre\")\n{}", PRELUDE, vx(l), vx(r), form.replace('@', op)), T_BIN, format!("binop {} {} {} as a condition", oi, l, r)));
+                    }
                 }
             }
         }
